@@ -62,6 +62,30 @@ def generate(rng, tier):
     for p in sc.gen_broad(rng, 200 * n):
         p["broad"] = True
         out.append(p)
+    out += _gen_failed_exit_then_rerun(rng, 40 * n)
+    return out
+
+
+def _gen_failed_exit_then_rerun(rng, n):
+    """A run cut by its limit in which one doer's own cease/exit context raises (an Exception or a
+    KeyboardInterrupt), then a second run of the same Doist without doers: nothing of the first run is carried into
+    the second (outside the Coq model, whose lifecycle contexts do not raise: oracle only)."""
+    out = []
+    Y = lambda: {"es": [], "out": ["y", None]}
+    for _ in range(n):
+        k = rng.randint(2, 4)
+        tock = rng.choice([0.25, 0.5, 1.0])
+        cut = rng.randint(2, 3)                    # cycles in each run
+        defs = {}
+        for i in range(1, k + 1):
+            need = rng.randint(cut + 1, 2 * cut)   # recurs needed: more than one run allows, often at most two runs' worth
+            defs[str(i)] = {"kind": rng.choice(["func", "bound", "doer", "doergen"]),
+                            "script": [Y() for _ in range(need)] + [{"es": [], "out": ["r", "true"]}]}
+        bad = rng.randint(2, k)                    # not the first entered: others are closed after it
+        defs[str(bad)]["hookraise"] = rng.choice(["cease", "exit"])
+        defs[str(bad)]["hookexc"] = rng.choice(["kbd", "kbd", "script"])
+        out.append({"tock": tock, "limit": cut * tock, "tyme": 0.0, "doers": list(range(1, k + 1)), "mode": rng.choice(["do", "do", "ado"]),
+                    "defs": defs, "ctor": True, "again": [{"limit": None, "tyme": rng.choice([None, 0.0])}]})
     return out
 
 
@@ -84,10 +108,27 @@ def _returned(case, obs):
 def _oracle_history(case, obs):
     """Several runs on one Doist: after the last run doist.done is True iff no root doer was force-closed in
     that run; a doer's done is True only if its last lifecycle ended by a truthy return."""
-    if obs["raised"] != "none":
+    hooked = any(d.get("hookraise") for d in case["defs"].values())
+    if obs["raised"] != "none" and not hooked:
         return f"do() raised: {obs['raised']}"
     tr = obs["trace"]
     ends = [p for p, (k, _, _) in enumerate(tr) if k in ("DoReturn", "DoRaise")]
+    if hooked:
+        # each run starts from scratch: within one run no doer is resumed more often than that run has cycles
+        # (a generator left over from the failed exit of the run before would add its own resumptions)
+        for r, e in enumerate(ends):
+            run = tr[(ends[r - 1] + 1) if r else 0:e]
+            tymes = sorted({sc.fl(h) for k, _, h in run if k == "Recur"})
+            for i in case["doers"]:
+                per = {}
+                for k, j, h in run:
+                    if j == i and k == "Recur":
+                        per[sc.fl(h)] = per.get(sc.fl(h), 0) + 1
+                twice = [t for t, c in per.items() if c > 1]
+                if twice:
+                    return f"run {r + 1}: doer {i} was resumed more than once in the cycle(s) at {twice}: a generator of an earlier run is still scheduled"
+                if sum(1 for k, j, _ in run if j == i and k == "Enter") > 1:
+                    return f"run {r + 1}: doer {i} entered more than once"
     if len(ends) != 1 + len(case["again"]):
         return f"expected {1 + len(case['again'])} runs, saw {len(ends)}"
     # every run of the history: a run that force-closes doers was stopped by its effective limit -- the one
